@@ -211,8 +211,10 @@ class DirectedWeightedGraph : private LabeledDirectedGraph<EdgeWeight> {
             successors.erase(j++);
             edgeNumber--;
         }
-        for (VertexIndex i = 0; i < size; ++i)
+        for (VertexIndex i = 0; i < size; ++i) {
             removeEdge(i, vertex);
+            edgeLabels.erase({vertex, i});
+        }
     }
 
     /// Constructs a matrix in which the element \f$w_{ij}\f$ is the weight of
